@@ -193,6 +193,11 @@ func (m *model) rootName() string { return m.s.Query.Name }
 func (m *model) runtimeType(def *gast.Definition, v *jv) (string, bool) {
 	tn := v.get("__typename")
 	if def.Kind == gast.Object {
+		// absent / non-string: the static type. A string naming another type contradicts the
+		// schema: unknown runtime type (not demanded of the root object, whose type nothing checks).
+		if tn != nil && tn.k == jStr && tn.s != def.Name && def.Name != m.rootName() {
+			return "", false
+		}
 		return def.Name, true
 	}
 	if tn == nil || tn.k != jStr {
